@@ -14,8 +14,11 @@ MCMapSeq == <<
   Md(4, <<4, 1, 1, 3>>, << Bd(<<2, 1, 3, 4>>, <<3, 2, 2, 1>>, <<1, 1, 0, 2>>, 1) >>),
   Md(3, <<2, 2, 7>>, << Bd(<<1, 2, 3>>, <<1, 1, 2>>, <<>>, 3) >>),
   Md(2, <<1, 1>>, << Bd(<<1, 2>>, <<0, 2>>, <<1, 1>>, 1) >>),      \* d # 0 on a zero weight: refused
-  Md(4, <<6, 1, 1, 2>>, << Bd(<<2, 1, 3, 4>>, <<1, 2, 1, 1>>, <<>>, 3), Bd(<<4, 3, 1>>, <<1, 0, 3>>, <<>>, 3) >>) >>
-\* all of them, or the one selected by the runner (environment variable C01_MD = 1..9)
+  Md(4, <<6, 1, 1, 2>>, << Bd(<<2, 1, 3, 4>>, <<1, 2, 1, 1>>, <<>>, 3), Bd(<<4, 3, 1>>, <<1, 0, 3>>, <<>>, 3) >>),
+  \* an ellipsoidal bead with fewer than three parents has no defined orientation: refusing it (at
+  \* creation or in Apply) or mapping pos/vel/force/mass is admitted, crashing is not
+  Md(2, <<1, 4>>, << Bd(<<1, 2>>, <<1, 1>>, <<>>, 3) >>) >>
+\* all of them, or the one selected by the runner (environment variable C01_MD = 1..10)
 MCMapDefs == IF "C01_MD" \in DOMAIN IOEnv THEN {MCMapSeq[atoi(IOEnv.C01_MD)]}
              ELSE {MCMapSeq[k] : k \in 1..Len(MCMapSeq)}
 Fl(hp, hv, hf) == [hp |-> hp, hv |-> hv, hf |-> hf]
